@@ -119,7 +119,11 @@ package server
 //@   trusted queue internals (holder queue): element-level behaviour is the subject of C20; here only the object frame is assumed
 //@   requires lock != nil && lock.command != nil
 //@   ensures C02.push.indexed,C01.push.indexed: implies(self.scaleQueue != nil && isnil(err), has(self.scaleQueue.maps, lock.command.LockId) && self.scaleQueue.maps[lock.command.LockId] == lock)
+//@   at call FreeLock after assume forall(k, 0, len(self.fastQueue), self.fastQueue[k] == before(self.fastQueue[k]))
 //@   loop#1 invariant self.fastQueue == old(self.fastQueue) && implies(old(self.fastIndex) >= 0, 0 <= currentIndex && currentIndex <= i)
+//@   loop#1 invariant C20.holder.compact-prefix,C01.holder.compact-prefix: implies(old(self.fastIndex) >= 0, old(self.fastIndex) <= i && i <= len(self.fastQueue) && forall(k, 0, currentIndex, self.fastQueue[k] != nil && self.fastQueue[k].locked > 0) && forall(k, i, len(self.fastQueue), self.fastQueue[k] == old(self.fastQueue[k])))
+//@   ensures C20.holder.push-last,C01.holder.push-last: implies(old(self.scaleQueue) == nil && self.scaleQueue == nil, len(self.fastQueue) >= 1 && self.fastQueue[len(self.fastQueue)-1] == lock)
+//@   ensures C20.holder.compacted,C01.holder.compacted: implies(old(self.scaleQueue) == nil && self.scaleQueue == nil && !isnil(old(self.fastQueue)) && old(len(self.fastQueue)) == old(cap(self.fastQueue)) && old(self.fastIndex) >= 0 && old(self.fastIndex) < old(len(self.fastQueue)), forall(k, self.fastIndex, len(self.fastQueue) - 1, self.fastQueue[k] != nil && self.fastQueue[k].locked > 0))
 //@   loop#1 backedge C20.holder.compact-keeps,C01.holder.compact-keeps,C02.holder.compact-keeps: implies(old(self.fastIndex) >= 0 && queuedLock != nil && queuedLock.locked > 0, currentIndex == athead(currentIndex) + 1)
 //@   loop#1 backedge C20.holder.compact-keeps,C01.holder.compact-keeps,C02.holder.compact-keeps: implies(old(self.fastIndex) >= 0 && queuedLock != nil && queuedLock.locked > 0, self.fastQueue[athead(currentIndex)] == queuedLock)
 //@   loop#1 backedge C17.holder.compact-releases: implies(queuedLock != nil && queuedLock.locked == 0, queuedLock.refCount == u8(athead(queuedLock.refCount) - 1) && currentIndex == athead(currentIndex) && implies(queuedLock.refCount == 0, calls(FreeLock) == athead(calls(FreeLock)) + 1))
@@ -233,7 +237,10 @@ package server
 //@ spec func waitInline(q) = !isnil(q.fastQueue) && q.fastIndex >= 0 && q.fastIndex < len(q.fastQueue)
 //@ func (*LockManagerWaitQueue).Push
 //@   trusted queue internals (wait queue), subject of C20 / C04 order
+//@   at call FreeLock after assume forall(k, 0, len(self.fastQueue), self.fastQueue[k] == before(self.fastQueue[k]))
 //@   loop#1 invariant self.fastQueue == old(self.fastQueue) && implies(old(self.fastIndex) >= 0, 0 <= currentIndex && currentIndex <= i)
+//@   loop#1 invariant C20.wait.compact-prefix,C04.wait.compact-prefix: implies(old(self.fastIndex) >= 0, old(self.fastIndex) <= i && i <= len(self.fastQueue) && forall(k, 0, currentIndex, self.fastQueue[k] != nil && !self.fastQueue[k].timeouted && self.fastQueue[k].ackCount == 0xff) && forall(k, i, len(self.fastQueue), self.fastQueue[k] == old(self.fastQueue[k])))
+//@   ensures C20.wait.push-last,C04.wait.push-last: implies(isnil(old(self.ringQueue)) && isnil(self.ringQueue), len(self.fastQueue) >= 1 && self.fastQueue[len(self.fastQueue)-1] == lock)
 //@   loop#1 backedge C20.wait.compact-keeps,C04.wait.compact-keeps: implies(old(self.fastIndex) >= 0 && queuedLock != nil && !queuedLock.timeouted && queuedLock.ackCount == 0xff, currentIndex == athead(currentIndex) + 1 && self.fastQueue[athead(currentIndex)] == queuedLock)
 //@   loop#1 backedge C17.wait.compact-releases: implies(queuedLock != nil && (athead(queuedLock.timeouted) || athead(queuedLock.ackCount) != 0xff), queuedLock.refCount == u8(athead(queuedLock.refCount) - 1) && currentIndex == athead(currentIndex) && implies(queuedLock.refCount == 0, calls(FreeLock) == athead(calls(FreeLock)) + 1))
 //@   assumes refDiscipline() && lockSame(lock)
@@ -328,7 +335,7 @@ package server
 
 //@ func (*LockManager).UpdateLockedLock
 //@   requires self != nil && lock != nil && command != nil && self.lockDb != nil
-//@   ensures C03.update.command,C19.update.command,C06.update.command,C05.update.command: lock.command == command && result == old(lock.command)
+//@   ensures C03.update.command,C19.update.command,C06.update.command,C05.update.command,C01.update.command,C02.update.command: lock.command == command && result == old(lock.command)
 //@   ensures C06.update.not-early: implies(command.ExpriedFlag&0x4000 == 0 && clockSane(self.lockDb), notEarly(lock.expriedTime, self.lockDb.currentTime, command.Expried, command.ExpriedFlag))
 //@   ensures C05.update.not-early: implies((command.ExpriedFlag&0x4000 == 0 || command.Expried < 0xffff) && clockSane(self.lockDb), notEarly(lock.timeoutTime, self.lockDb.currentTime, command.Timeout, command.TimeoutFlag))
 //@   ensures C06.update.restart: implies(command.ExpriedFlag&0x4000 == 0 || command.Expried < 0xffff, lock.startTime == self.lockDb.currentTime && lock.expriedTime == i64(expriedDeadline(self.lockDb.currentTime, command)) && lock.timeoutTime == i64(timeoutDeadline(self.lockDb.currentTime, command)))
@@ -570,6 +577,8 @@ package server
 // =====================================================================================================
 //@ spec func heldWellFormed() = forallref(l, Lock, implies(l.locked > 0, l.manager != nil && l.command != nil && l.manager.lockDb != nil && l.expriedTime >= 0))
 //@ spec func sectionInv(db, m) = clockSane(db) && m != nil && m.lockDb == db && m.glock != nil && m.state != nil && implies(m.locked > 0, m.currentLock != nil && m.currentLock.locked > 0) && implies(m.currentLock != nil, m.currentLock.locked > 0 && m.currentLock.command != nil && m.currentLock.manager == m) && heldWellFormed()
+//@ spec func sectionShape(db, m) = clockSane(db) && m != nil && m.lockDb == db && m.glock != nil && m.state != nil
+//@ spec func sectionOldest(m) = implies(m.locked > 0, m.currentLock != nil && m.currentLock.locked > 0) && implies(m.currentLock != nil, m.currentLock.locked > 0 && m.currentLock.command != nil && m.currentLock.manager == m)
 // assumed when a section starts and NOT re-established by the proofs (C17 'refs' accounting): a manager without references holds nothing
 //@ spec func sectionAssumeOnly(m) = implies(m.refCount == 0, m.locked == 0 && m.currentLock == nil && !m.waited)
 //@ spec func engineUntouched(m) = m.locked == atsection(m.locked) && m.waited == atsection(m.waited) && forallref(l, Lock, l.locked == atsection(l.locked) && l.timeouted == atsection(l.timeouted) && l.expried == atsection(l.expried) && l.ackCount == atsection(l.ackCount))
@@ -591,6 +600,8 @@ package server
 //@   at call GetOrNewLockManager after havoc Lock.*, LockManager.locked, LockManager.currentLock, LockManager.currentData, LockManager.locks, LockManager.waitLocks, LockManager.waited, LockManager.refCount, LockManager.lockKey, LockManager.fastKeyValue, LockManagerLockQueue.*, LockManagerWaitQueue.*, LockQueue.*, protocol.LockDBState.*, LockDB.status, LockDB.currentTime
 //@   at call GetOrNewLockManager after assume sectionInv(self, callresult) && callresult.freeLocks != nil && sectionAssumeOnly(callresult)
 //@   at call PriorityMutex.Unlock assert C01.lock.monitor: sectionInv(self, lockManager)
+//@   at call PriorityMutex.Unlock assert C01.lock.monitor-shape: calls(RemoveLockManager) >= 1 || sectionShape(self, lockManager)
+//@   at call PriorityMutex.Unlock assert C01.lock.monitor-oldest: calls(RemoveLockManager) >= 1 || sectionOldest(lockManager)
 //@   at call AddLock assert C01.lock.admit: admissible(lockManager, lock) || unlimitedClass(lockManager, lock)
 //@   at call AddLock assert C01.lock.key: lockManager.lockKey == command.LockKey && lock.manager == lockManager && lock.command == command
 //@   at call AddWaitLock assert C01.lock.queuekey: lockManager.lockKey == command.LockKey && lock.manager == lockManager && lock.command == command
@@ -608,6 +619,8 @@ package server
 //@   modifies all
 
 //@ func (*LockDB).wakeUpWaitLocks
+//@   at call PriorityMutex.Unlock assert C01.section.shape,C04.section.shape: calls(RemoveLockManager) >= 1 || calls(addWaitRemoveLockManager) >= 1 || sectionShape(self, lockManager)
+//@   at call PriorityMutex.Unlock assert C01.section.oldest,C04.section.oldest: calls(RemoveLockManager) >= 1 || calls(addWaitRemoveLockManager) >= 1 || sectionOldest(lockManager)
 //@   requires self != nil && lockManager != nil && lockManager.glock != nil
 //@   at call PriorityMutex.Lock after havoc Lock.*, LockManager.locked, LockManager.currentLock, LockManager.currentData, LockManager.locks, LockManager.waitLocks, LockManager.waited, LockManager.refCount, LockManager.lockKey, LockManager.fastKeyValue, LockManagerLockQueue.*, LockManagerWaitQueue.*, LockQueue.*, protocol.LockDBState.*, LockDB.status, LockDB.currentTime
 //@   at call PriorityMutex.Lock after assume sectionInv(self, lockManager) && lockManager.freeLocks != nil && sectionAssumeOnly(lockManager)
@@ -619,6 +632,8 @@ package server
 //@   modifies all
 
 //@ func (*LockDB).wakeUpWaitLock
+//@   at call PriorityMutex.Unlock assert C01.section.shape,C04.section.shape: calls(RemoveLockManager) >= 1 || calls(addWaitRemoveLockManager) >= 1 || sectionShape(self, lockManager)
+//@   at call PriorityMutex.Unlock assert C01.section.oldest,C04.section.oldest: calls(RemoveLockManager) >= 1 || calls(addWaitRemoveLockManager) >= 1 || sectionOldest(lockManager)
 //@   at call ProcessLockResultCommand assert C15.reply.before: implies(calls(ProcessLockData) >= 1, arg5 == ghost.valueBefore[ref(lockManager)])
 //@   inline
 //@   at call AddLock assert C10.wake.leader-only: self.status == STATE_LEADER
@@ -629,6 +644,8 @@ package server
 //@   at call PriorityMutex.Unlock assert C03.wake.tombstone: waitLock.timeouted || waitLock.ackCount != 0xff
 
 //@ func (*LockDB).DoAckLock
+//@   at call PriorityMutex.Unlock assert C01.section.shape,C04.section.shape: calls(RemoveLockManager) >= 1 || calls(addWaitRemoveLockManager) >= 1 || sectionShape(self, lockManager)
+//@   at call PriorityMutex.Unlock assert C01.section.oldest,C04.section.oldest: calls(RemoveLockManager) >= 1 || calls(addWaitRemoveLockManager) >= 1 || sectionOldest(lockManager)
 //@   requires self != nil && lock != nil
 //@   at call PriorityMutex.Lock after havoc Lock.*, LockManager.locked, LockManager.currentLock, LockManager.currentData, LockManager.locks, LockManager.waitLocks, LockManager.waited, LockManager.refCount, LockManager.lockKey, LockManager.fastKeyValue, LockManagerLockQueue.*, LockManagerWaitQueue.*, LockQueue.*, protocol.LockDBState.*, LockDB.status, LockDB.currentTime
 //@   at call PriorityMutex.Lock after assume sectionInv(self, lockManager) && lockManager.freeLocks != nil && sectionAssumeOnly(lockManager) && lock.manager == lockManager && implies(lock.ackCount != 0xff, lock.command != nil && lock.protocol != nil && lock.locked == 1)
@@ -646,6 +663,8 @@ package server
 //@   modifies nothing
 
 //@ func (*LockDB).cancelWaitLock
+//@   at call PriorityMutex.Unlock assert C01.section.shape,C04.section.shape: calls(RemoveLockManager) >= 1 || calls(addWaitRemoveLockManager) >= 1 || sectionShape(self, lockManager)
+//@   at call PriorityMutex.Unlock assert C01.section.oldest,C04.section.oldest: calls(RemoveLockManager) >= 1 || calls(addWaitRemoveLockManager) >= 1 || sectionOldest(lockManager)
 //@   at call wakeUpWaitLocks assert C04.cancel.waited-flag: implies(old(lockManager.waited) && !lockManager.waited, calls(GetWaitLock) >= 1 && ghost.lastWaitLock[ref(lockManager)] == 0)
 //@   at call PriorityMutex.Unlock assert C17.cancel.waitcounter: implies(waitLock != nil && lockLocked == 0, lockManager.state.WaitCount == u32(old(lockManager.state.WaitCount) - 1)) && implies(waitLock == nil, lockManager.state.WaitCount == old(lockManager.state.WaitCount))
 //@   requires self != nil && lockManager != nil && command != nil && sectionInv(self, lockManager) && lockManager.freeLocks != nil
@@ -680,6 +699,8 @@ package server
 //@   at call GetLockManager after havoc Lock.*, LockManager.locked, LockManager.currentLock, LockManager.currentData, LockManager.locks, LockManager.waitLocks, LockManager.waited, LockManager.refCount, LockManager.lockKey, LockManager.fastKeyValue, LockManagerLockQueue.*, LockManagerWaitQueue.*, LockQueue.*, protocol.LockDBState.*, LockDB.status, LockDB.currentTime
 //@   at call GetLockManager after assume implies(callresult != nil, sectionInv(self, callresult) && callresult.freeLocks != nil && sectionAssumeOnly(callresult))
 //@   at call PriorityMutex.Unlock assert C02.unlock.monitor: sectionInv(self, lockManager)
+//@   at call PriorityMutex.Unlock assert C02.unlock.monitor-shape: calls(RemoveLockManager) >= 1 || sectionShape(self, lockManager)
+//@   at call PriorityMutex.Unlock assert C02.unlock.monitor-oldest: calls(RemoveLockManager) >= 1 || sectionOldest(lockManager)
 //@   at call PriorityMutex.Lock after havoc LockDB.status
 //@   at call ProcessLockResultCommand assert C10.unlock.refuse: implies(self.status != STATE_LEADER && old(command.Flag)&0x04 == 0 && lockManager != nil, arg2 == protocol.RESULT_STATE_ERROR)
 //@   at call ProcessLockResultCommand assert C10.unlock.nochange: implies(self.status != STATE_LEADER && old(command.Flag)&0x04 == 0 && lockManager != nil, engineUntouched(lockManager))
@@ -699,6 +720,8 @@ package server
 //@   modifies all
 
 //@ func (*LockDB).doExpried
+//@   at call PriorityMutex.Unlock assert C01.section.shape,C04.section.shape: calls(RemoveLockManager) >= 1 || calls(addWaitRemoveLockManager) >= 1 || sectionShape(self, lockManager)
+//@   at call PriorityMutex.Unlock assert C01.section.oldest,C04.section.oldest: calls(RemoveLockManager) >= 1 || calls(addWaitRemoveLockManager) >= 1 || sectionOldest(lockManager)
 //@   requires self != nil && lock != nil && lock.manager != nil && lock.manager.glock != nil
 //@   at call PriorityMutex.Lock after havoc Lock.*, LockManager.locked, LockManager.currentLock, LockManager.currentData, LockManager.locks, LockManager.waitLocks, LockManager.waited, LockManager.refCount, LockManager.lockKey, LockManager.fastKeyValue, LockManagerLockQueue.*, LockManagerWaitQueue.*, LockQueue.*, protocol.LockDBState.*, LockDB.status, LockDB.currentTime
 //@   at call PriorityMutex.Lock after assume sectionInv(self, lockManager) && lockManager.freeLocks != nil && sectionAssumeOnly(lockManager) && lock.manager == lockManager && implies(!lock.expried, lock.command != nil && lock.protocol != nil && lock.locked > 0 && lock.locked <= lockManager.locked)
@@ -712,6 +735,8 @@ package server
 //@   modifies all
 
 //@ func (*LockDB).doTimeOut
+//@   at call PriorityMutex.Unlock assert C01.section.shape,C04.section.shape: calls(RemoveLockManager) >= 1 || calls(addWaitRemoveLockManager) >= 1 || sectionShape(self, lockManager)
+//@   at call PriorityMutex.Unlock assert C01.section.oldest,C04.section.oldest: calls(RemoveLockManager) >= 1 || calls(addWaitRemoveLockManager) >= 1 || sectionOldest(lockManager)
 //@   at call PriorityMutex.Unlock assert C04.timeout.waited-flag,C19.timeout.waited-flag: implies(atsection(lockManager.waited) && !lockManager.waited, calls(GetWaitLock) >= 1 && ghost.lastWaitLock[ref(lockManager)] == 0)
 //@   at call RemoveLock assert C11.timeout.undo: implies(atsection(lock.ackCount) != 0xff && atsection(lock.command.Flag)&0x20 != 0, calls(ProcessRecoverLockData) == 1)
 //@   requires self != nil && lock != nil && lock.manager != nil && lock.manager.glock != nil
